@@ -316,6 +316,23 @@ class Report:
         return rc
 
 
+def replay_filter(cases):
+    """`./check Cnn <tier> --replay <file>`: restrict the population to the case stored in the replay file"""
+    path = os.environ.get("VERIF_REPLAY")
+    if not path:
+        return cases
+    try:
+        d = json.load(open(path))
+    except (OSError, ValueError) as e:
+        raise Infra("cannot read replay file %s: %s" % (path, e))
+    cj = (d.get("case") or {}).get("case_json")
+    if cj is None:
+        log("replay file carries no abstract case; running the whole check")
+        return cases
+    log("replaying case %s from %s" % (cj.get("id"), path))
+    return [cj]
+
+
 def main_wrap(fn):
     try:
         rc = fn()
